@@ -19,6 +19,7 @@ import (
 	"verif/engine/props/c12"
 	"verif/engine/props/c13"
 	"verif/engine/props/c14"
+	"verif/engine/props/c16"
 	"verif/engine/props/c17"
 	"verif/engine/props/c18"
 	"verif/engine/props/c19"
@@ -44,6 +45,7 @@ var checks = map[string]struct {
 	"C12": {"model_checking", c12.Run},
 	"C13": {"model_checking", c13.Run},
 	"C14": {"model_checking", c14.Run},
+	"C16": {"model_checking", c16.Run},
 	"C17": {"model_checking", c17.Run},
 	"C18": {"model_checking", c18.Run},
 	"C19": {"model_checking", c19.Run},
